@@ -31,6 +31,13 @@ Theorem C13_no_panic_v2 : forall st q locr ecs max,
 Proof. exact serve_no_panic_v2. Qed.
 Print Assumptions C13_no_panic_v2.
 
+(* the three readers in one statement: the guard concerns the v2 layout only *)
+Theorem C13_no_panic : forall b st q locr ecs max,
+  (b = RDB2 -> wf_store_v2 st = true /\ loc_wf locr) -> wire_name (q_name q) = true ->
+  serve b st q locr ecs max <> OPanic /\ serve b st q locr ecs max <> OFuel.
+Proof. exact serve_no_panic. Qed.
+Print Assumptions C13_no_panic.
+
 (* the guard is what the compiler emits: the v2 database of any records whose owner labels are
    1..63 bytes long and whose location tags are two bytes (Proofs/ZoneCut.wf_recs; in fact any
    non-empty labels: Proofs/NoPanicV2.compiled_store_wf) satisfies it, and so does every sorted
